@@ -113,6 +113,10 @@ func (c *Ctx) Pick(q, t int) int {
 	if c.Quick() {
 		return q
 	}
+	if os.Getenv("VERIF_STAGE") == "yield" && t > 4*q {
+		// second stage of a thorough run (perturbed schedules are slower): a quarter of the size
+		return t / 4
+	}
 	return t
 }
 
@@ -298,6 +302,9 @@ type evidence struct {
 	Violations  int                    `json:"violations"`
 }
 
+// ExtraCoverage, when set, contributes process-wide monitor counters to every evidence file.
+var ExtraCoverage func() map[string]interface{}
+
 // Finish writes evidence and replays, prints verdict lines and returns the exit code:
 // 0 held (possibly with known findings), 1 violation, 2 monitor observed too little.
 func (c *Ctx) Finish() int {
@@ -372,6 +379,34 @@ func (c *Ctx) Finish() int {
 	}
 	for k, v := range c.extra {
 		cov[k] = v
+	}
+	if ExtraCoverage != nil {
+		for k, v := range ExtraCoverage() {
+			cov[k] = v
+		}
+	}
+	// a tier run in stages (e.g. plain build, then the yield-instrumented build): the later stage carries
+	// the earlier stage's coverage along; evaluations add up, distinct cases are NOT added (the stages
+	// re-run the same generated cases under other schedules), the larger count is kept
+	if st := os.Getenv("VERIF_STAGE"); st != "" {
+		cov["stage"] = st
+		if pb, err := os.ReadFile(filepath.Join(root, "evidence", c.Prop+".json")); err == nil && os.Getenv("VERIF_STAGE_MERGE") != "" {
+			var prev evidence
+			if json.Unmarshal(pb, &prev) == nil && prev.PropertyID == c.Prop && prev.Tier == c.Tier && prev.Seed == c.Seed {
+				delete(prev.Coverage, "samples")
+				delete(prev.Coverage, "rule")
+				cov["previous_stage"] = prev.Coverage
+				cov["previous_stage_wall_s"] = prev.WallS
+				cov["this_stage_evaluations"] = c.evals
+				cov["this_stage_distinct_nontrivial"] = len(c.distinct) + len(c.distinctH)
+				if pe, ok := prev.Coverage["evaluations"].(float64); ok {
+					cov["evaluations"] = c.evals + int64(pe)
+				}
+				if pd, ok := prev.Coverage["distinct_nontrivial"].(float64); ok && int(pd) > len(c.distinct)+len(c.distinctH) {
+					cov["distinct_nontrivial"] = int(pd)
+				}
+			}
+		}
 	}
 	e := evidence{PropertyID: c.Prop, Tier: c.Tier, Seed: c.Seed, Level: c.Level, Coverage: cov,
 		Assumptions: c.assumptions, WallS: time.Since(c.Start).Seconds(), Violations: nviol}
